@@ -7,8 +7,9 @@ A family is {'defs': [def...], 'layers': n, 'call': {...}}.  A def is
 and a param is
   {'name', 'type', 'nullable', 'default': absent | JSON value,
    'kwonly': bool, 'hidden': bool, 'lazy': bool}.
-Types: obj A B C D int Integer String bool (lattice object>A>B>C, A>D) and
-the union types BorD = (B, D), Number = (int, float) without bool.
+Types: obj A B C D int Integer String bool (lattice object>A>B>C, A>D),
+the union types BorD = (B, D), Number = (int, float) without bool, and Pos =
+int with the validator v > 0 (one shared type object).
 Call: {'receiver': value|absent, 'args': [value | {'skip': 1}],
        'kwargs': [[name, value]...], 'via': 'text'|'api'}.
 Values: {'o': 'a'|'b'|'c'|'d'} lattice instances, or JSON scalars.
@@ -51,10 +52,20 @@ SUPERS = {
     'int': ['int', 'Number', 'obj'], 'Integer': ['Integer', 'Number', 'obj'],
     'Number': ['Number', 'obj'],
     'String': ['String', 'obj'], 'bool': ['bool', 'obj'],
+    'Pos': ['Pos', 'Number', 'obj'],
 }
 PYTYPE = {'obj': object, 'A': A, 'B': B, 'C': C, 'D': D, 'int': int,
           'Integer': int, 'String': str, 'bool': bool,
-          'Number': (int, float), 'BorD': (B, D)}
+          'Number': (int, float), 'BorD': (B, D), 'Pos': int}
+# a host type whose validator tells values of one class apart: integers
+# greater than zero.  Hosts define such a type once and use the object
+# wherever it applies, so it is one object here too (per nullability)
+_POS = {}
+
+
+def fresh_types():
+    """forget the shared host type objects (the next family gets new ones)"""
+    _POS.clear()
 
 
 def make_type(tok, nullable, lazy=False):
@@ -66,6 +77,11 @@ def make_type(tok, nullable, lazy=False):
         return yaqltypes.String(nullable=nullable)
     if tok == 'Number':
         return yaqltypes.Number(nullable=nullable)
+    if tok == 'Pos':
+        if nullable not in _POS:
+            _POS[nullable] = yaqltypes.PythonType(
+                int, nullable=nullable, validators=[lambda v: v > 0])
+        return _POS[nullable]
     return yaqltypes.PythonType(PYTYPE[tok], nullable=nullable)
 
 
